@@ -6,11 +6,25 @@
   All statements hold for EVERY entity table `lookup` (a parameter); the table lemmas at the end
   instantiate them with `Gen.Entities.table` (the `entities` crate as linked).
 
-  Property theorems: `named_agree`, `numeric_agree`, `escape_agree`, `escape_literal_agree`,
-  `numeric_parse_total`, `valid_code_is_scalar`, `unescapeAllE_total`, `escapable_is_ascii_punct`,
-  `escapable_eq_unescapeClass`, `stopset_subset_punct`, `entity_names_fit_syntax`, `table_no_hash`,
-  `table_lookup_complete`, `table_named_agree`, `table_numeric_agree`, `escape_roundtrip`,
-  `escape_roundtrip_TE`.
+  Property theorems:
+    agreement        `named_agree`, `numeric_agree`, `escape_agree`, `escape_literal_agree`
+                     (+ `…_inline`: the whole chain `[text, escape, entity]`; `…_at`: at any position of a
+                     longer source; `unescapeScan_named/_numeric/_escape`: path B followed by anything)
+    no panic         `numeric_parse_total`, `valid_code_is_scalar`, `codeToChars_valid`,
+                     `unescapeAllE_total`, `tokenizeTEE_total`, `matchUnescapeAllRe_prefix`
+    literal sets     `escapable_is_ascii_punct`, `escapable_eq_unescapeClass`, `stopset_subset_punct`,
+                     `escapable_length`
+    shipped table    `entity_names_fit_syntax`, `table_no_hash`, `table_sorted`, `table_lookup_complete`,
+                     `table_named_agree`, `table_numeric_agree`
+    round trip       `escape_roundtrip`, `escape_roundtrip_TE`
+    regex modelling  `runThenSemi_ok`, `runThenSemi_sound`, `runThenSemi_too_long`
+
+  Scope notes.
+  * `\` + newline is a hard break in inline text and literal on path B (`escape_newline`); the property
+    speaks of escapable punctuation only.
+  * The round trip is stated for the inline loop.  That `escapeAllPunct s` is ONE paragraph whose inline
+    content is `escapeAllPunct s` (no block construct starts with `\` or a non-punctuation character
+    other than digits/blank; leading/trailing blanks are trimmed) is block-level and not modelled here.
 -/
 import MdIt.Model.Entity
 import MdIt.Gen.Entities
@@ -975,4 +989,323 @@ theorem escape_roundtrip_TE (lookup : List Char → Option (List Char)) (s : Lis
     have := this s; omega
   obtain ⟨ps, h1, h2, _⟩ := escape_roundtrip [entityRuleR lookup] s hn _ hlen
   exact ⟨ps, h1, h2⟩
+
+/-! ## the whole inline chain on a single reference / escape -/
+
+theorem textRule_stop (c : Char) (r : List Char) (h : nonStop c = false) : textRule (c :: r) = .ok none := by
+  simp [textRule_eq, splitRun, h]
+
+theorem escapeRuleR_other (c : Char) (r : List Char) (h : c ≠ '\\') : escapeRuleR (c :: r) = .ok none := by
+  simp [escapeRuleR, escapeCore, h]
+
+theorem inlineLoop_one (rules : List Rule) (s : List Char) (hs : s ≠ []) (len : Nat) (ps : List Piece)
+    (h : firstRule rules s = .ok (some (len, ps))) (hl : s.length ≤ len) :
+    inlineLoop rules (s.length + 1) s = .ok ps := by
+  match s, hs with
+  | c :: r, _ =>
+    have : (c :: r).drop len = [] := List.drop_eq_nil_iff.2 hl
+    simp only [inlineLoop, h, this]
+    cases (c :: r).length <;> simp
+
+/-- `named_agree` at the level of the parsed paragraph text: the chain `[text, escape, entity]` turns
+    `&n;` into the single node `TextSpecial { content: cs, markup: "&n;" }` -/
+theorem named_inline (lookup : List Char → Option (List Char)) (n cs : List Char)
+    (hn : namedSyntax n = true) (hl : lookup ('&' :: (n ++ [';'])) = some cs) :
+    tokenizeTEE lookup ('&' :: (n ++ [';'])) = .ok [.special cs ('&' :: (n ++ [';']))] := by
+  have hc := entityCore_named lookup n [] cs hn hl
+  apply inlineLoop_one _ _ (by simp) ('&' :: (n ++ [';'])).length
+  · simp only [firstRule, textRule_stop '&' _ (by decide), escapeRuleR_other '&' _ (by decide),
+      entityRuleR, hc]
+  · exact Nat.le_refl _
+
+/-- `numeric_agree` at the level of the parsed paragraph text -/
+theorem numeric_inline (lookup : List Char → Option (List Char)) (cap : List Char)
+    (h : numericBody cap = true) :
+    tokenizeTEE lookup ('&' :: '#' :: (cap ++ [';'])) =
+      .ok [.special (codeToChars (entityCode cap)) ('&' :: '#' :: (cap ++ [';']))] := by
+  have hc := entityCore_numeric lookup cap [] h
+  apply inlineLoop_one _ _ (by simp) ('&' :: '#' :: (cap ++ [';'])).length
+  · simp only [firstRule, textRule_stop '&' _ (by decide), escapeRuleR_other '&' _ (by decide),
+      entityRuleR, hc, decodeEntity]
+  · exact Nat.le_refl _
+
+/-- `escape_agree` at the level of the parsed paragraph text (both kinds of `c`) -/
+theorem escape_inline (lookup : List Char → Option (List Char)) (c : Char) (hn : c ≠ '\n') :
+    tokenizeTEE lookup ['\\', c] =
+      .ok [.special (if c ∈ escapable then [c] else ['\\', c]) ['\\', c]] := by
+  apply inlineLoop_one _ _ (by simp) 2
+  · by_cases h : c ∈ escapable
+    · simp [firstRule, textRule_stop '\\' _ (by decide), escapeRuleR, escapeCore_escapable c [] h, h]
+    · simp [firstRule, textRule_stop '\\' _ (by decide), escapeRuleR, escapeCore_literal c [] h hn, h]
+  · simp
+
+/-! ## non-vacuity: the hypotheses are satisfiable, the statements say something on concrete inputs -/
+
+section Examples
+
+/-- a two-row table for the abstract theorems -/
+private def lk : List Char → Option (List Char) :=
+  lookupIn [([38, 97, 109, 112, 59], [38]), ([38, 110, 103, 69, 59], [8807, 824])]
+
+private theorem lk_no_hash (s : List Char) : lk ('&' :: '#' :: s) = none := by
+  simp [lk, lookupIn, lookupNat]
+
+/-- `&amp;` through `named_agree` -/
+example : entityRule lk ['&', 'a', 'm', 'p', ';'] 0 5 = .ok (some ⟨5, ['&'], ['&', 'a', 'm', 'p', ';']⟩) ∧
+    unescapeAll lk ['&', 'a', 'm', 'p', ';'] = ['&'] :=
+  let r := named_agree lk ['a', 'm', 'p'] ['&'] (by decide) (by decide)
+  ⟨r.1, r.2.2⟩
+
+/-- a two-character value (`&ngE;` = U+2267 U+0338) -/
+example : unescapeAll lk ['&', 'n', 'g', 'E', ';'] = [Char.ofNat 8807, Char.ofNat 824] :=
+  (named_agree lk ['n', 'g', 'E'] _ (by decide) (by decide)).2.2
+
+/-- `&amp;` in the shipped table, through `table_named_agree` -/
+example : unescapeAll tableLookup ['&', 'a', 'm', 'p', ';'] = ['&'] ∧
+    entityRule tableLookup ['&', 'a', 'm', 'p', ';'] 0 5 = .ok (some ⟨5, ['&'], ['&', 'a', 'm', 'p', ';']⟩) := by
+  have hmem : (([38, 97, 109, 112, 59], [38]) : List Nat × List Nat) ∈ Gen.Entities.table := by
+    decide +kernel
+  have := table_named_agree _ hmem
+  exact ⟨this.2.2, this.1⟩
+
+/-- `&#x41;` = `&#X41;` = `&#65;` = `&#0000065;` = "A" on both paths -/
+example : unescapeAll lk ['&', '#', 'x', '4', '1', ';'] = ['A'] ∧
+    unescapeAll lk ['&', '#', 'X', '4', '1', ';'] = ['A'] ∧
+    unescapeAll lk ['&', '#', '6', '5', ';'] = ['A'] ∧
+    unescapeAll lk ['&', '#', '0', '0', '0', '0', '0', '6', '5', ';'] = ['A'] ∧
+    entityRule lk ['&', '#', 'x', '4', '1', ';'] 0 6 =
+      .ok (some ⟨6, ['A'], ['&', '#', 'x', '4', '1', ';']⟩) :=
+  ⟨(numeric_agree lk ['x', '4', '1'] (by decide) lk_no_hash).2.2.1,
+   (numeric_agree lk ['X', '4', '1'] (by decide) lk_no_hash).2.2.1,
+   (numeric_agree lk ['6', '5'] (by decide) lk_no_hash).2.2.1,
+   (numeric_agree lk ['0', '0', '0', '0', '0', '6', '5'] (by decide) lk_no_hash).2.2.1,
+   (numeric_agree lk ['x', '4', '1'] (by decide) lk_no_hash).1⟩
+
+/-- `&#0;`, `&#xD800;`, `&#x110000;`, `&#xFFFE;`, `&#9999999;` all denote U+FFFD on both paths -/
+example : unescapeAll lk ['&', '#', '0', ';'] = [Char.ofNat 0xFFFD] ∧
+    unescapeAll lk ['&', '#', 'x', 'D', '8', '0', '0', ';'] = [Char.ofNat 0xFFFD] ∧
+    unescapeAll lk ['&', '#', 'x', '1', '1', '0', '0', '0', '0', ';'] = [Char.ofNat 0xFFFD] ∧
+    unescapeAll lk ['&', '#', 'x', 'F', 'F', 'F', 'E', ';'] = [Char.ofNat 0xFFFD] ∧
+    unescapeAll lk ['&', '#', '9', '9', '9', '9', '9', '9', '9', ';'] = [Char.ofNat 0xFFFD] ∧
+    entityRule lk ['&', '#', '0', ';'] 0 4 = .ok (some ⟨4, [Char.ofNat 0xFFFD], ['&', '#', '0', ';']⟩) :=
+  ⟨(numeric_agree lk ['0'] (by decide) lk_no_hash).2.2.1,
+   (numeric_agree lk ['x', 'D', '8', '0', '0'] (by decide) lk_no_hash).2.2.1,
+   (numeric_agree lk ['x', '1', '1', '0', '0', '0', '0'] (by decide) lk_no_hash).2.2.1,
+   (numeric_agree lk ['x', 'F', 'F', 'F', 'E'] (by decide) lk_no_hash).2.2.1,
+   (numeric_agree lk ['9', '9', '9', '9', '9', '9', '9'] (by decide) lk_no_hash).2.2.1,
+   (numeric_agree lk ['0'] (by decide) lk_no_hash).1⟩
+
+/-- eight decimal / seven hex digits, a missing `;`, and a 33-character name are no references:
+    both paths leave them alone (the greedy `{1,31}` cannot backtrack onto a `;`) -/
+example : unescapeAll lk ['&', '#', '0', '0', '0', '0', '0', '0', '6', '5', ';'] =
+      ['&', '#', '0', '0', '0', '0', '0', '0', '6', '5', ';'] ∧
+    unescapeAll lk ['&', '#', '6', '5'] = ['&', '#', '6', '5'] := by
+  constructor <;> decide
+
+example : runThenSemi isAlnum 31 (List.replicate 32 'a' ++ [';']) = none :=
+  runThenSemi_too_long isAlnum 31 (List.replicate 32 'a') [] (by simp; decide) (by decide) (by simp)
+
+/-- `\*` and `\a` -/
+example : escapeRule ['\\', '*'] 0 2 = .ok (some (.special ⟨2, ['*'], ['\\', '*']⟩)) ∧
+    unescapeAll lk ['\\', '*'] = ['*'] :=
+  let r := escape_agree lk '*' (by decide)
+  ⟨r.1, r.2.2⟩
+
+example : escapeRule ['\\', 'a'] 0 2 = .ok (some (.special ⟨2, ['\\', 'a'], ['\\', 'a']⟩)) ∧
+    unescapeAll lk ['\\', 'a'] = ['\\', 'a'] :=
+  let r := escape_literal_agree lk 'a' (by decide) (by decide)
+  ⟨r.1, r.2.2⟩
+
+/-- nesting is not re-scanned: `&amp;amp;` → `&amp;`; an escaped ampersand starts no reference -/
+example : unescapeAll lk ['&', 'a', 'm', 'p', ';', 'a', 'm', 'p', ';'] = ['&', 'a', 'm', 'p', ';'] ∧
+    unescapeAll lk ['\\', '&', 'a', 'm', 'p', ';'] = ['&', 'a', 'm', 'p', ';'] := by
+  constructor <;> decide
+
+/-- round trip of `a*b [c]_&amp;` -/
+example : escapeAllPunct ['a', '*', 'b', ' ', '[', 'c', ']', '_', '&', 'a', 'm', 'p', ';'] =
+    ['a', '\\', '*', 'b', ' ', '\\', '[', 'c', '\\', ']', '\\', '_', '\\', '&', 'a', 'm', 'p', '\\', ';'] := by
+  decide
+
+example : ∃ ps, tokenizeTEE lk
+      ['a', '\\', '*', 'b', ' ', '\\', '[', 'c', '\\', ']', '\\', '_', '\\', '&', 'a', 'm', 'p', '\\', ';'] = .ok ps ∧
+    display ps = ['a', '*', 'b', ' ', '[', 'c', ']', '_', '&', 'a', 'm', 'p', ';'] :=
+  escape_roundtrip_TE lk ['a', '*', 'b', ' ', '[', 'c', ']', '_', '&', 'a', 'm', 'p', ';'] (by decide)
+
+/-- without the escaping the same string does not round-trip (`&amp;` is decoded) -/
+example : ∃ ps, tokenizeTEE lk ['&', 'a', 'm', 'p', ';'] = .ok ps ∧ display ps ≠ ['&', 'a', 'm', 'p', ';'] :=
+  ⟨_, named_inline lk ['a', 'm', 'p'] ['&'] (by decide) (by decide), by decide⟩
+
+/-- the hypothesis `'\n' ∉ s` of the round trip is needed: the newline is a stop character of the
+    text scanner that is not punctuation, so `escapeAllPunct` leaves it for another rule -/
+example : escapeAllPunct ['a', '\n', 'b'] = ['a', '\n', 'b'] ∧ nonStop '\n' = false := by decide
+
+end Examples
+
+/-! ## the inline chain `[text, escape, entity]` never panics and always terminates -/
+
+theorem parseDigitalEntity_total (s : List Char) :
+    ∃ r, parseDigitalEntity s = .ok r ∧ ∀ sp, r = some sp → 1 ≤ sp.len := by
+  unfold parseDigitalEntity
+  split
+  · exact ⟨none, rfl, by simp⟩
+  · rename_i cap rest heq
+    have hb : numericBody cap = true := by
+      unfold matchDigitalRe at heq
+      split at heq
+      · exact (matchDigitalBody_sound _ _ _ heq).1
+      · cases heq
+    simp only [numeric_parse_total cap hb]
+    exact ⟨_, rfl, by intro sp h; simp at h; subst h; simp⟩
+
+theorem parseNamedEntity_total (lookup : List Char → Option (List Char)) (s : List Char) :
+    ∃ r, parseNamedEntity lookup s = .ok r ∧ ∀ sp, r = some sp → 1 ≤ sp.len := by
+  unfold parseNamedEntity
+  split
+  · exact ⟨none, rfl, by simp⟩
+  · rename_i whole rest heq
+    have hw : 1 ≤ whole.length := by
+      unfold matchNamedRe at heq
+      split at heq
+      · split at heq
+        · split at heq
+          · simp at heq; rw [← heq.1]; simp
+          · cases heq
+        · cases heq
+      · cases heq
+    split
+    · exact ⟨none, rfl, by simp⟩
+    · exact ⟨_, rfl, by intro sp h; simp at h; subst h; exact hw⟩
+
+theorem entityCore_total (lookup : List Char → Option (List Char)) (window suffix : List Char)
+    (hw : window ≠ []) :
+    ∃ r, entityCore lookup window suffix = .ok r ∧ ∀ sp, r = some sp → 1 ≤ sp.len := by
+  match window, hw with
+  | c :: w, _ =>
+    unfold entityCore
+    simp only
+    split
+    · exact ⟨none, rfl, by simp⟩
+    · split
+      · exact parseDigitalEntity_total suffix
+      · exact parseNamedEntity_total lookup suffix
+
+theorem escapeCore_total (window : List Char) (hw : window ≠ []) :
+    ∃ r, escapeCore window = .ok r ∧
+      ∀ o, r = some o → (∃ len, o = .hardbreak len ∧ 2 ≤ len) ∨ (∃ sp, o = .special sp ∧ sp.len = 2) := by
+  match window, hw with
+  | c :: w, _ =>
+    unfold escapeCore
+    simp only
+    split
+    · exact ⟨none, rfl, by simp⟩
+    · split
+      · exact ⟨none, rfl, by simp⟩
+      · split
+        · exact ⟨_, rfl, by intro o h; simp at h; subst h; exact Or.inl ⟨_, rfl, by omega⟩⟩
+        · exact ⟨_, rfl, by intro o h; simp at h; subst h; exact Or.inr ⟨_, rfl, rfl⟩⟩
+
+/-- every rule of the chain answers without panic on non-empty input, and a `Some(len)` has `len ≥ 1` -/
+theorem firstRule_TE_total (lookup : List Char → Option (List Char)) (s : List Char) (hs : s ≠ []) :
+    ∃ r, firstRule [textRule, escapeRuleR, entityRuleR lookup] s = .ok r ∧
+      ∀ len ps, r = some (len, ps) → 1 ≤ len := by
+  simp only [firstRule]
+  by_cases hrun : ((splitRun nonStop s).1.length == 0) = true
+  · have ht : textRule s = .ok none := by rw [textRule_eq, if_pos hrun]
+    simp only [ht]
+    obtain ⟨r, hr, hlen⟩ := escapeCore_total s hs
+    simp only [escapeRuleR, hr]
+    match r, hlen with
+    | some (.hardbreak len), hlen =>
+      refine ⟨_, rfl, ?_⟩
+      intro l ps h; simp at h
+      rcases hlen _ rfl with ⟨len', h1, h2⟩ | ⟨sp, h1, _⟩
+      · simp at h1; omega
+      · cases h1
+    | some (.special sp), hlen =>
+      refine ⟨_, rfl, ?_⟩
+      intro l ps h; simp at h
+      rcases hlen _ rfl with ⟨len', h1, _⟩ | ⟨sp', h1, h2⟩
+      · cases h1
+      · simp at h1; subst h1; omega
+    | none, _ =>
+      obtain ⟨r, hr, hlen⟩ := entityCore_total lookup s s hs
+      simp only [entityRuleR, hr]
+      match r, hlen with
+      | none, _ => exact ⟨none, rfl, by simp⟩
+      | some sp, hlen =>
+        refine ⟨_, rfl, ?_⟩
+        intro l ps h; simp at h
+        have := hlen sp rfl; omega
+  · have ht : textRule s =
+        .ok (some ((splitRun nonStop s).1.length, [.text (splitRun nonStop s).1])) := by
+      rw [textRule_eq, if_neg hrun]
+    simp only [ht]
+    refine ⟨_, rfl, ?_⟩
+    intro l ps h; simp at h hrun
+    have : 0 < (splitRun nonStop s).1.length := List.length_pos_iff.2 hrun
+    omega
+
+/-- **C12 / C01.** On every input and every table the chain `[text, escape, entity]` runs to the end
+    without panic (`chars.next().unwrap()`, the radix parse, `char::from_u32(..).unwrap()`), and
+    `s.length` iterations suffice. -/
+theorem tokenizeTEE_total (lookup : List Char → Option (List Char)) (s : List Char) :
+    ∃ ps, tokenizeTEE lookup s = .ok ps := by
+  have key : ∀ fuel (s : List Char), s.length ≤ fuel →
+      ∃ ps, inlineLoop [textRule, escapeRuleR, entityRuleR lookup] fuel s = .ok ps := by
+    intro fuel
+    induction fuel with
+    | zero => intro s hs; match s, hs with | [], _ => exact ⟨[], rfl⟩
+    | succ f ih =>
+      intro s hs
+      match s, hs with
+      | [], _ => exact ⟨[], rfl⟩
+      | c :: r, hs =>
+        obtain ⟨res, hres, hlen⟩ := firstRule_TE_total lookup (c :: r) (by simp)
+        simp only [inlineLoop, hres]
+        match res, hlen with
+        | none, _ =>
+          obtain ⟨ps, hps⟩ := ih r (by simpa using hs)
+          rw [hps]; exact ⟨_, rfl⟩
+        | some (len, ps'), hlen =>
+          have h1 := hlen len ps' rfl
+          obtain ⟨ps, hps⟩ := ih ((c :: r).drop len) (by simp at hs ⊢; omega)
+          simp only [hps]; exact ⟨_, rfl⟩
+  exact key _ s (Nat.le_succ _)
+
+/-! ## the rules at an arbitrary position of a longer source -/
+
+theorem slice?_suffix (pre suf : List Char) :
+    slice? (pre ++ suf) pre.length (pre ++ suf).length = some suf := by
+  simp [slice?]
+
+/-- at top level (`pos_max` = end of the source) the rules depend on the rest of the input only -/
+theorem entityRule_at (lookup : List Char → Option (List Char)) (pre suf : List Char) :
+    entityRule lookup (pre ++ suf) pre.length (pre ++ suf).length = entityCore lookup suf suf := by
+  simp only [entityRule, slice?_suffix]
+
+theorem escapeRule_at (pre suf : List Char) :
+    escapeRule (pre ++ suf) pre.length (pre ++ suf).length = escapeCore suf := by
+  simp only [escapeRule, slice?_suffix]
+
+/-- `named_agree`, path A, anywhere in a paragraph: whatever precedes and follows the reference -/
+theorem named_agree_at (lookup : List Char → Option (List Char)) (pre n rest cs : List Char)
+    (hn : namedSyntax n = true) (hl : lookup ('&' :: (n ++ [';'])) = some cs) :
+    entityRule lookup (pre ++ '&' :: (n ++ ';' :: rest)) pre.length (pre ++ '&' :: (n ++ ';' :: rest)).length =
+      .ok (some ⟨('&' :: (n ++ [';'])).length, cs, '&' :: (n ++ [';'])⟩) := by
+  rw [entityRule_at]; exact entityCore_named lookup n rest cs hn hl
+
+/-- `numeric_agree`, path A, anywhere in a paragraph -/
+theorem numeric_agree_at (lookup : List Char → Option (List Char)) (pre cap rest : List Char)
+    (h : numericBody cap = true) :
+    entityRule lookup (pre ++ '&' :: '#' :: (cap ++ ';' :: rest)) pre.length
+        (pre ++ '&' :: '#' :: (cap ++ ';' :: rest)).length =
+      .ok (some ⟨('&' :: '#' :: (cap ++ [';'])).length, codeToChars (entityCode cap),
+        '&' :: '#' :: (cap ++ [';'])⟩) := by
+  rw [entityRule_at]; exact entityCore_numeric lookup cap rest h
+
+/-- `escape_agree`, path A, anywhere in a paragraph -/
+theorem escape_agree_at (pre rest : List Char) (c : Char) (h : c ∈ escapable) :
+    escapeRule (pre ++ '\\' :: c :: rest) pre.length (pre ++ '\\' :: c :: rest).length =
+      .ok (some (.special ⟨2, [c], ['\\', c]⟩)) := by
+  rw [escapeRule_at]; exact escapeCore_escapable c rest h
 end MdIt.Entity
